@@ -223,3 +223,199 @@ Proof.
     + exact (eq_ind_r (fun l => NoDup l) Hu H2).
     + exact (eq_ind_r (fun n => (v < n)%nat) Hv H1).
 Qed.
+
+(* ------------------------------------------------------------ inventory and selection *)
+
+Definition dw : wout := {| w_inscribed := false; w_runes := [] |}.
+
+Definition valid_inv (inv : list wout) : Prop := Forall (fun w => uniq (w_runes w)) inv.
+
+(* what the listed wallet outputs hold of rune id *)
+Definition sum_inputs (inv : list wout) (ins : list nat) (id : N) : N :=
+  fold_right (fun o acc => get (w_runes (nth o inv dw)) id + acc) 0 ins.
+
+Lemma sum_inputs_app : forall inv a b id,
+  sum_inputs inv (a ++ b) id = sum_inputs inv a id + sum_inputs inv b id.
+Proof.
+  intros inv a b id. unfold sum_inputs. induction a as [|x a IH]; cbn [app fold_right]; [lia|].
+  rewrite IH. lia.
+Qed.
+
+Lemma candidates_spec : forall inv k o s, In (o, s) (candidates k inv) ->
+  (k <= o)%nat /\ s = w_runes (nth (o - k) inv dw) /\ w_inscribed (nth (o - k) inv dw) = false /\
+  (o - k < length inv)%nat.
+Proof.
+  induction inv as [|w r IH]; intros k o s H; cbn [candidates] in H; [destruct H|].
+  assert (Hrec : In (o, s) (candidates (S k) r) ->
+    (k <= o)%nat /\ s = w_runes (nth (o - k) (w :: r) dw) /\ w_inscribed (nth (o - k) (w :: r) dw) = false /\
+    (o - k < length (w :: r))%nat).
+  { intros Hin. apply IH in Hin. destruct Hin as [Hk [Hs [Hi Hl]]].
+    replace (o - k)%nat with (S (o - S k)) by lia. cbn [nth length]. repeat split; auto; lia. }
+  destruct (w_runes w) as [|x xs] eqn:Hw; [auto|].
+  destruct (w_inscribed w) eqn:Hi; [auto|].
+  destruct H as [H|H]; [|auto].
+  inversion H; subst. rewrite Nat.sub_diag. cbn [nth length]. repeat split; auto; lia.
+Qed.
+
+Definition cands_ok (inv : list wout) (cands : list (nat * sheet)) : Prop :=
+  forall o s, In (o, s) cands -> s = w_runes (nth o inv dw) /\ uniq s.
+
+Lemma candidates_ok : forall inv, valid_inv inv -> cands_ok inv (candidates 0 inv).
+Proof.
+  intros inv Hv o s Hin. apply candidates_spec in Hin. destruct Hin as [_ [Hs [_ Hl]]].
+  rewrite Nat.sub_0_r in *. split; [exact Hs|]. subst s.
+  unfold valid_inv in Hv. rewrite Forall_forall in Hv. apply Hv. apply nth_In. exact Hl.
+Qed.
+
+Lemma select_send_ok : forall inv cands r a inputs0 bal0 inputs bal,
+  cands_ok inv cands -> uniq bal0 ->
+  (forall id, get bal0 id = sum_inputs inv inputs0 id) ->
+  select_send cands r a inputs0 bal0 = Ok (inputs, bal) ->
+  uniq bal /\ (forall id, get bal id = sum_inputs inv inputs id).
+Proof.
+  intros inv. induction cands as [|[o s] rest IH]; intros r a inputs0 bal0 inputs bal Hc Hu Hs H;
+    cbn [select_send] in H.
+  - inversion H; subst. auto.
+  - assert (Hrest : cands_ok inv rest) by (intros o' s' Hin; apply Hc; right; exact Hin).
+    destruct (Hc o s (or_introl eq_refl)) as [Hso Hsu].
+    assert (Hu' : uniq (merge bal0 s)) by (apply uniq_merge; exact Hu).
+    assert (Hs' : forall id, get (merge bal0 s) id = sum_inputs inv (inputs0 ++ [o]) id).
+    { intros id. rewrite get_merge by exact Hsu. rewrite sum_inputs_app, Hs.
+      cbn [sum_inputs fold_right]. rewrite <- Hso. lia. }
+    destruct (0 <? get s r).
+    + destruct (overflow (merge bal0 s)); [discriminate|].
+      destruct (a <=? get (merge bal0 s) r).
+      * inversion H; subst. auto.
+      * exact (IH r a _ _ inputs bal Hrest Hu' Hs' H).
+    + exact (IH r a _ _ inputs bal Hrest Hu Hs H).
+Qed.
+
+(* a sheet with at most one key that holds something of r holds nothing else *)
+Lemma single_key : forall (bal : sheet) r, (length bal <= 1)%nat -> 0 < get bal r ->
+  forall id, id <> r -> get bal id = 0.
+Proof.
+  intros [|[k v] [|x xs]] r Hl Hg id Hne; cbn [get] in *; try lia; [|cbn [length] in Hl; lia].
+  destruct (N.eqb_spec k r) as [->|]; [|lia].
+  destruct (N.eqb_spec r id); [congruence|reflexivity].
+Qed.
+
+(* ------------------------------------------------------------ send / burn outcome *)
+
+Ltac fin :=
+  repeat match goal with
+         | |- context [?a =? ?b] => destruct (N.eqb_spec a b)
+         end;
+  subst; cbn [andb negb]; rewrite ?andb_true_r, ?andb_false_r; try lia; try congruence.
+
+Lemma burn_get_unfold : forall opret res id,
+  burn_get opret res id =
+  fold_right (fun o acc => (if nth o opret false then get (nth o (fst res) []) id else 0) + acc)
+             0 (seq 0 (length opret)) + get (snd res) id.
+Proof. reflexivity. Qed.
+
+Theorem send_exact : forall inv r a is_send fc t,
+  valid_inv inv -> r <> 0 ->
+  build_send inv r a is_send fc = Ok t ->
+  0 < a /\
+  (forall id, get (t_spent t) id = sum_inputs inv (t_inputs t) id) /\
+  (forall id, sum_outs t (t_dest t) id = if is_send && (id =? r) then a else 0) /\
+  (forall id, burn_get (t_opret t) (outcome t) id = if negb is_send && (id =? r) then a else 0) /\
+  (forall id, sum_outs t (t_change t) id + (if id =? r then a else 0) = get (t_spent t) id).
+Proof.
+  intros inv r a is_send fc t Hv Hr H. unfold build_send in H.
+  destruct (N.eqb_spec a 0) as [|Ha]; [discriminate|].
+  destruct (select_send (candidates 0 inv) r a [] []) as [[inputs bal]|e|p] eqn:Hsel;
+    cbn [bind] in H; try discriminate.
+  destruct (select_send_ok inv _ r a [] [] inputs bal (candidates_ok inv Hv) uniq_nil
+              (fun id => eq_refl) Hsel) as [Hu Hsum].
+  destruct (N.ltb_spec (get bal r) a) as [|Hge]; [discriminate|].
+  split; [lia|].
+  set (e2 := {| e_id := r; e_amount := a; e_output := 2 |}) in *.
+  set (e0 := {| e_id := r; e_amount := a; e_output := 0 |}) in *.
+  assert (Hsid : forall (e : edict) id, e_id e = r -> e_amount e = a ->
+            sum_id [e] id <= get bal id).
+  { intros e id He Hea. cbn [sum_id fold_right]. rewrite He, Hea. fin. }
+  destruct ((a <? get bal r) || (1 <? N.of_nat (length bal))) eqn:Hnc.
+  - (* with a rune change output *)
+    destruct is_send; inversion H; subst t; clear H; cbn [t_spent t_inputs t_dest t_change t_opret t_edicts];
+      (split; [exact Hsum|]).
+    + (* send: [runestone; change; recipient] ++ bitcoin change *)
+      assert (Hpl : Forall (plain (length ([true; false; false] ++ (if fc then [false] else [])))) [e2]).
+      { constructor; [|constructor]. unfold plain, e2; cbn [e_id e_amount e_output].
+        repeat split; [exact Hr|lia|destruct fc; cbn; lia]. }
+      pose proof (apply_tx_exact bal [e2] _ Hu Hpl (fun id => Hsid e2 id eq_refl eq_refl)) as HA.
+      cbv zeta in HA.
+      unfold sum_outs, outcome, out_get; cbn [t_spent t_edicts t_opret].
+      repeat split; intros id.
+      * cbn [fold_right]. destruct (HA 2%nat id) as [H2 _].
+        destruct fc; cbn [app nth non_opret Nat.eqb] in *; rewrite H2;
+          cbn [sum_io sum_id fold_right e2 e_id e_amount e_output Nat.eqb andb]; fin.
+      * rewrite burn_get_unfold. destruct (HA 0%nat id) as [H0 Hs0].
+        destruct fc; cbn [app length seq fold_right nth non_opret Nat.eqb fst snd negb andb] in *;
+          rewrite H0, Hs0; cbn [sum_io sum_id fold_right e2 e_id e_amount e_output Nat.eqb andb];
+          rewrite ?andb_false_r; lia.
+      * cbn [fold_right]. destruct (HA 1%nat id) as [H1 _]. destruct (HA 3%nat id) as [H3 _].
+        specialize (Hsid e2 id eq_refl eq_refl).
+        destruct fc; cbn [app nth non_opret Nat.eqb fold_right] in *; rewrite ?H1, ?H3;
+          cbn [sum_io sum_id fold_right e2 e_id e_amount e_output Nat.eqb andb] in *;
+          rewrite ?andb_false_r in *; fin.
+    + (* burn: [runestone; change] ++ bitcoin change *)
+      assert (Hpl : Forall (plain (length ([true; false] ++ (if fc then [false] else [])))) [e0]).
+      { constructor; [|constructor]. unfold plain, e0; cbn [e_id e_amount e_output].
+        repeat split; [exact Hr|lia|destruct fc; cbn; lia]. }
+      pose proof (apply_tx_exact bal [e0] _ Hu Hpl (fun id => Hsid e0 id eq_refl eq_refl)) as HA.
+      cbv zeta in HA.
+      unfold sum_outs, outcome, out_get; cbn [t_spent t_edicts t_opret].
+      repeat split; intros id.
+      * rewrite burn_get_unfold. destruct (HA 0%nat id) as [H0 Hs0].
+        destruct fc; cbn [app length seq fold_right nth non_opret Nat.eqb fst snd negb andb] in *;
+          rewrite H0, Hs0; cbn [sum_io sum_id fold_right e0 e_id e_amount e_output Nat.eqb andb];
+          rewrite ?andb_true_r; fin.
+      * cbn [fold_right]. destruct (HA 1%nat id) as [H1 _]. destruct (HA 2%nat id) as [H2 _].
+        specialize (Hsid e0 id eq_refl eq_refl).
+        destruct fc; cbn [app nth non_opret Nat.eqb fold_right] in *; rewrite ?H1, ?H2;
+          cbn [sum_io sum_id fold_right e0 e_id e_amount e_output Nat.eqb andb] in *;
+          rewrite ?andb_false_r in *; fin.
+  - (* exact: the inputs hold exactly a of r and nothing else *)
+    apply orb_false_iff in Hnc. destruct Hnc as [Hlt Hlen].
+    assert (Hex : get bal r = a) by (destruct (N.ltb_spec a (get bal r)); [discriminate|lia]).
+    assert (Hl1 : (length bal <= 1)%nat) by (destruct (N.ltb_spec 1 (N.of_nat (length bal))); [discriminate|lia]).
+    assert (Hoth : forall id, id <> r -> get bal id = 0) by (apply single_key; [exact Hl1|lia]).
+    destruct is_send; inversion H; subst t; clear H; cbn [t_spent t_inputs t_dest t_change t_opret t_edicts];
+      (split; [exact Hsum|]).
+    + (* send without runestone: [recipient] ++ bitcoin change *)
+      assert (Hpl : Forall (plain (length ([false] ++ (if fc then [false] else [])))) []) by constructor.
+      pose proof (apply_tx_exact bal [] _ Hu Hpl (fun id => N.le_0_l _)) as HA. cbv zeta in HA.
+      unfold sum_outs, outcome, out_get; cbn [t_spent t_edicts t_opret].
+      repeat split; intros id.
+      * cbn [fold_right]. destruct (HA 0%nat id) as [H0 _].
+        destruct fc; cbn [app nth non_opret Nat.eqb] in *; rewrite H0; cbn [sum_io sum_id fold_right];
+          cbn [andb]; (destruct (N.eqb_spec id r) as [->|Hne]; [|rewrite ?(Hoth id Hne)]; fin).
+      * rewrite burn_get_unfold. destruct (HA 0%nat id) as [_ Hs0]. destruct (HA 1%nat id) as [_ Hs1].
+        destruct fc; cbn [app length seq fold_right nth non_opret fst snd negb andb] in *; rewrite Hs0; lia.
+      * destruct (HA 1%nat id) as [H1 _].
+        destruct fc; cbn [app nth non_opret Nat.eqb fold_right] in *; rewrite ?H1;
+          cbn [sum_io sum_id fold_right];
+          (destruct (N.eqb_spec id r) as [->|Hne]; [|rewrite ?(Hoth id Hne)]; fin).
+    + (* burn: [runestone] ++ bitcoin change *)
+      assert (Hpl : Forall (plain (length ([true] ++ (if fc then [false] else [])))) [e0]).
+      { constructor; [|constructor]. unfold plain, e0; cbn [e_id e_amount e_output].
+        repeat split; [exact Hr|lia|destruct fc; cbn; lia]. }
+      pose proof (apply_tx_exact bal [e0] _ Hu Hpl (fun id => Hsid e0 id eq_refl eq_refl)) as HA.
+      cbv zeta in HA.
+      unfold sum_outs, outcome, out_get; cbn [t_spent t_edicts t_opret].
+      repeat split; intros id.
+      * rewrite burn_get_unfold. destruct (HA 0%nat id) as [H0 Hs0].
+        destruct fc; cbn [app length seq fold_right nth non_opret Nat.eqb fst snd negb andb] in *;
+          rewrite H0, Hs0; cbn [sum_io sum_id fold_right e0 e_id e_amount e_output Nat.eqb andb];
+          rewrite ?andb_true_r;
+          (destruct (N.eqb_spec id r) as [->|Hne]; [|rewrite ?(Hoth id Hne)]; fin).
+      * destruct (HA 1%nat id) as [H1 _].
+        destruct fc; cbn [app nth non_opret Nat.eqb fold_right] in *; rewrite ?H1;
+          cbn [sum_io sum_id fold_right e0 e_id e_amount e_output Nat.eqb andb];
+          rewrite ?andb_false_r;
+          (destruct (N.eqb_spec id r) as [->|Hne]; [|rewrite ?(Hoth id Hne)]; fin).
+Qed.
+
+Theorem send_zero_rejected : forall inv r is_send fc, build_send inv r 0 is_send fc = Err 2.
+Proof. reflexivity. Qed.
